@@ -27,7 +27,6 @@ Proj(b) == [bids |-> Levels(b.bids, "bids"), asks |-> Levels(b.asks, "asks"), se
             vw  |-> IF IsEmpty(b) THEN "none" ELSE RJ(VWMid(b)),
             d0 |-> Depth(b, 0), d1 |-> Depth(b, 1), d2 |-> Depth(b, 2), dL |-> Depth(b, Large)]
 
-Maps == UNION {[S -> AMOUNT \ {0}] : S \in SUBSET PRICE}
 
 \* all books the event allows from any possible book
 After(P, e) ==
@@ -57,7 +56,7 @@ DrawNext(forceSnap) ==
       nxt' = IF forceSnap \/ kind = 1 THEN Ev("Snapshot", CleanOf(Sb, fb, ab), CleanOf(Sa, fa, aa), s)
                                       ELSE Ev("Update", bl, al, s)
 
-GInitT == /\ \E m \in Maps : bids = m /\ asks = m
+GInitT == /\ \E m \in MapsOver(PRICE) : bids = m /\ asks = m
           /\ seq = 0 /\ last = NoEvent /\ nxt = NoEvent
           /\ init = Proj(Book) /\ poss = {Book} /\ hist = << >> /\ done = FALSE
 
